@@ -1,5 +1,6 @@
 import TongoProofs.Lemmas.TlbSpec
 import TongoProofs.C03
+import TongoProofs.Lemmas.TlbBitsRefine
 import TongoGen.TlbTypes
 /-! # C04 — TL-B encodings are bit-exact with the TON schemas
 
@@ -16,7 +17,49 @@ encoder and decoder. -/
 namespace Tongo.Tlb.C04
 open Tongo Tongo.Tlb Tongo.Tlb.Spec Tongo.Bits
 
-/-! ## Primitive layer: all widths, all values -/
+/-! ## Primitive layer: all widths, all values
+
+The statements are about the IDEAL-level writers of `TongoModel/Tlb/Basic.lean` (a cell under construction is a list
+of bits) against an independent arithmetic reading of the bits (`bitsToNat (…) = v % 2^n`, two's complement
+`bitsToInt (…) = v`, minimality of the VarUInteger length). That the ideal writer is what Go's byte-level code does
+(the shift loop of `WriteUint`, the sign handling of `WriteInt`, the byte buffer) is C06's refinement composed with
+`C03.builder_refines_bitstring`: `*_on_bitstring` below state the two primitive facts on the byte-level model. -/
+
+/-- **writeUint_on_bitstring**: on the byte-level model of `boc.BitString` (Go's loop `for i := bitLen-1; i >= 0; i--
+{ WriteBit(val>>i & 1) }`), starting from any buffer that holds the bits of `b` with the cell capacity, `WriteUint`
+succeeds exactly when the ideal writer does, and then the buffer holds `b.bits ++ natToBits n v`, whose value is
+`v % 2^n` -/
+theorem writeUint_on_bitstring (v n : Nat) (hv : v < 2 ^ 64) (bs : BitString) (b b' : Builder)
+    (hinv : BitString.Inv bs) (habs : bs.abs = b.bits) (hcap : bs.cap = cellBits)
+    (h : b.writeUint v n = .ok b') :
+    ((Op.writeUint v n).run bs).1 = .ok .unit ∧ ((Op.writeUint v n).run bs).2.abs = b.bits ++ natToBits n v ∧
+      bitsToNat (natToBits n v) = v % 2 ^ n := by
+  have := builder_on_bitstring (writeUint_refines v n hv) (by simpa [Op.WF] using hv) bs b hinv habs hcap
+  simp only [h] at this
+  have hb := Builder.writeBits_ok (show b.writeBits (natToBits n v) = .ok b' by
+    unfold Builder.writeUint at h; rwa [Nat.mod_eq_of_lt hv] at h)
+  refine ⟨this.1, ?_, bitsToNat_natToBits n v⟩
+  rw [this.2.1, hb]
+  simp [Builder.app]
+
+/-- **writeInt_on_bitstring**: the same for `WriteInt` (sign bit + magnitude in the code), every width 1..64 and
+every representable int64: the buffer receives the two's complement bits `intToBits n v`, whose value is `v` -/
+theorem writeInt_on_bitstring (v : Int) (n : Nat) (h1 : 1 ≤ n) (hn : n ≤ 64)
+    (lo : -(2 ^ (n - 1) : Int) ≤ v) (hi : v < (2 ^ (n - 1) : Int)) (bs : BitString) (b b' : Builder)
+    (hinv : BitString.Inv bs) (habs : bs.abs = b.bits) (hcap : bs.cap = cellBits)
+    (h : b.writeInt v n = .ok b') :
+    ((Op.writeInt v n).run bs).1 = .ok .unit ∧ ((Op.writeInt v n).run bs).2.abs = b.bits ++ intToBits n v ∧
+      bitsToInt (intToBits n v) = v := by
+  have h63 : (2 : Int) ^ (n - 1) ≤ 2 ^ 63 := by
+    have : (2 : Nat) ^ (n - 1) ≤ 2 ^ 63 := Nat.pow_le_pow_right (by omega) (by omega)
+    exact_mod_cast this
+  have hwf : (Op.writeInt v n).WF := ⟨by omega, by omega, hn⟩
+  have := builder_on_bitstring (writeInt_refines v n hn) hwf bs b hinv habs hcap
+  simp only [h] at this
+  have hb := Spec.writeInt_spec b b' v n h1 hn lo hi h
+  refine ⟨this.1, ?_, bitsToInt_intToBits n v h1 lo hi⟩
+  rw [this.2.1, hb]
+  simp [Builder.app]
 
 /-- **writeUint_spec**: `n` bits, most significant first, of the value mod 2^n — every width 0..64 -/
 theorem writeUint_spec (b b' : Builder) (v n : Nat) (hn : n ≤ 64) (h : b.writeUint v n = .ok b') :
